@@ -2,7 +2,7 @@
    name a with apply2 a = Ok . g), every seed, every item sequence xs of one lifetime of one key. *)
 From Coq Require Import List ZArith Bool.
 From RxVerif Require Import Mux.Val Mux.Sim Mux.SimExt Mux.Ops Mux.Syntax Mux.ConfineProofs Mux.LocalSemProofs
-  Mux.MasterProofs Mux.OpsSpecProofs.
+  Mux.MasterProofs Mux.OpsSpecProofs Mux.RecreateProofs.
 Import ListNotations.
 
 (* streaming: after the i-th item the left fold over the first i items *)
@@ -48,6 +48,33 @@ Theorem C09_seed_isolation : forall (P : list op) (t pre life : list iev) (k : k
   sel item k t (raw_run P t) = local_run P pre ++ local_run P (Create k :: life).
 Proof. exact pipe_lifetime. Qed.
 Print Assumptions C09_seed_isolation.
+
+(* ... also when the previous lifetime of the key was NOT completed: rxsci's operators release a key on a mux
+   error as on a completion and the key may be created again.  wf' allows a Create for a key that is still
+   live (the slot is free or held by this very key).  For every pipeline of per-slot operators (scan and
+   what is defined through it, first/last/take/distinct/lag/pad/start_with/assert, the error handlers) what
+   is emitted from that Create on is the local machine on the items that follow it, from the fresh seed *)
+Theorem C09_fresh_after_an_uncompleted_lifetime :
+  forall (P : list op) (t pre : list iev) (k : key) (xs : list item), simple_pipe P = true -> wf' t ->
+  filter (on_key item k) t = pre ++ lifetime item k xs ->
+  sel item k t (raw_run P t) =
+    local_run P pre ++
+    ([Create k] :: map (map (Next k)) (fst (ltimed item (pipe_l P) xs))
+                ++ [map (Next k) (snd (ltimed item (pipe_l P) xs)) ++ [Done k]]).
+Proof. exact recreate_lifetime. Qed.
+Print Assumptions C09_fresh_after_an_uncompleted_lifetime.
+Example C09_uncompleted_lifetime_example :
+  wf' [Create [2]; Next [2] (It (VInt 5)); Next [2] (IErr 1%Z); Create [2]; Next [2] (It (VInt 7)); Done [2]]%nat /\
+  concat (raw_run [OScan A2Add (VInt 0) TInt true None]
+            [Create [2]; Next [2] (It (VInt 5)); Next [2] (IErr 1%Z); Create [2]; Next [2] (It (VInt 7)); Done [2]]%nat)
+  = [Create [2]; Next [2] (IErr 1%Z); Create [2]; Next [2] (It (VInt 7)); Done [2]]%nat.
+Proof.
+  split; [|vm_compute; reflexivity].
+  unfold wf'. cbn [allowed_seq' allowed' after'].
+  refine (conj _ (conj _ (conj _ (conj _ (conj _ (conj _ I)))))); try (left; reflexivity).
+  - intros k' [].
+  - intros k' [E|Hi] _; [symmetry; exact E|]. cbn [remove] in Hi. destruct Hi.
+Qed.
 
 Example C09_den_scan a s t r tm : bl item (den (OScan a s t r tm)) = L_scan a s t r tm. Proof. reflexivity. Qed.
 Example C09_example :
